@@ -70,6 +70,11 @@ def gen(tier, seed, shard, nshards):
             yield "weighted-dag", {"W": gmat.weighted(rng, out, dtype=int if k % 3 == 0 else float)}
     for c in _gc.iter_pdag_cases((3, 4), shard, nshards):
         yield "internal", c
+    for code in _gc.sample_pdag5_codes(("C15", seed), 4000 if tier == "quick" else 120000, shard, nshards):
+        yield "pdag", {"p": 5, "code": code}
+    for k in range(48 if tier == "quick" else 480):
+        if k % nshards == shard:
+            yield "dense-closure", {"p": 9 + k % 5, "dtype": ("int8", "uint8", "int16", "bool", "float32", "int64")[k % 6], "k": k}
     # relabelled copies of the small PDAGs inside 9..13 nodes (labels >= 8 included)
     for c in _gc.iter_pdag_cases((3, 4), shard, nshards):
         if c["code"] % 2 == 0:
@@ -148,6 +153,29 @@ def judge(family, case, rec):
             GC.State.rate = 1
         return
 
+    if family == "dense-closure":
+        # complete / nearly complete DAGs: hundreds of directed paths between two nodes
+        rng = util.rng_for("C15dc", case["k"])
+        p = case["p"]
+        order = [int(v) for v in rng.permutation(p)]
+        out = [0] * p
+        for a in range(p):
+            for b in range(a + 1, p):
+                if case["k"] % 3 or rng.random() < 0.9:
+                    out[order[a]] |= 1 << order[b]
+        A = gmat.to_np(out).astype(case["dtype"])
+        rec.case(family, case, True, key=("dc", case["k"]))
+        GC.State.rate = 997          # only the outermost results are judged here (the recursion is exponential on dense graphs)
+        try:
+            ok, res = _call(rec, family, case, "transitive_closure", U.transitive_closure, A)
+        finally:
+            GC.State.rate = 1
+        if ok:
+            want = [G.reach(out, 1 << i) & ~(1 << i) for i in range(p)]
+            if gmat.masks(res) != want:
+                rec.violation("C15:transitive_closure", family, case, "closure of a dense %s DAG on %d nodes differs from directed reachability" % (case["dtype"], p), matrix=A)
+            rec.count("dense-closure:judged")
+        return
     if family == "pdag":
         out = G.pdag_from_code(case["p"], case["code"])
         if not G.directed_part_acyclic(out):
